@@ -126,13 +126,27 @@ def facade_pass(iso, ns, arg, getter, v, hashes, anomalies, pexc):
         diff = sorted(seen ^ direct)
         anomalies.append((tag, ('facade-names-differ', len(diff), diff[0])))
         return
+    if ns in ('iso', 'joliet'):
+        # the deprecated alias of list_children, on the root
+        try:
+            a1 = [id(c) for c in iso.list_dir('/', joliet=(ns == 'joliet'))]
+            a2 = [id(c) for c in iso.list_children(**{arg: '/'})]
+        except pexc.PyCdlibException as e:
+            anomalies.append((tag, ('list_dir-exception', type(e).__name__, str(e)[:60])))
+        else:
+            if a1 != a2:
+                anomalies.append((tag, ('list_dir-differs', len(a1), len(a2))))
     for (a, p), (ln, crc) in sorted(hashes.items()):
         if a != arg or zlib.crc32(p.encode('utf-8')) & 1:
             continue
         one = {'facade_' + ns: p}
         try:
-            if fac.get_record(p) is not iso.get_record(**{arg: p}):
+            rec = iso.get_record(**{arg: p})
+            if fac.get_record(p) is not rec:
                 anomalies.append((one, ('facade-record-differs',)))
+            if ns in ('iso', 'joliet') and iso.get_entry(p, joliet=(ns == 'joliet')) is not rec:
+                # the deprecated alias of get_record
+                anomalies.append((one, ('get_entry-record-differs',)))
             o = io.BytesIO()
             fac.get_file_from_iso_fp(o, p)
             d = o.getvalue()
